@@ -444,6 +444,8 @@ def subscript(ex, o, i):
     o = plain(o) if not isinstance(o, (Sym, Ref)) else o
     if isinstance(o, Unknown) or isinstance(i, Unknown):
         return Unknown('subscript')
+    if isinstance(o, Ref) and isinstance(ex.obj(o), ExtObj):
+        return ex.obj(o).ext_subscript(ex, o, i)
     if isinstance(i, SliceV):
         return slice_of(ex, o, i)
     i = plain(i)
@@ -535,7 +537,40 @@ def seq_get(ex, seq, i):
     if isinstance(seq.k[1], tuple) and seq.k[1][0] == 'rec' and not ex.quant:
         # valid fact of the theory of sequences (hint for membership-quantified invariants, see forall_in)
         ex.add_def(z3.Implies(z3.And(idx >= 0, idx < z3.Length(seq.t)), z3.Contains(seq.t, z3.Unit(seq.t[idx]))))
-    return elem_to_value(ex, seq.t[idx], seq.k[1])
+    return elem_to_value(ex, nth_through(seq.t, idx), seq.k[1])
+
+
+def nth_through(t, i, depth=0):
+    """the element `t[i]` with the read pushed through the syntactic structure of t (concatenation, unit, extract):
+    an equivalent term (valid in the theory of sequences; outside the bounds the original nth term is kept), in which
+    quantified facts about the parts of t apply by plain instantiation -- the solvers do not derive
+    nth(a ++ b, i) = ite(i < |a|, nth(a, i), nth(b, i - |a|)) under quantifiers by themselves"""
+    if depth > 6 or not z3.is_app(t):
+        return t[i]
+    k = t.decl().kind()
+    if k == z3.Z3_OP_SEQ_CONCAT:
+        parts = t.children()
+        out = t[i]
+        # right to left: ite(i < |a1|, a1[i], ite(i < |a1|+|a2|, a2[i-|a1|], ...))
+        offs = []
+        acc = z3.IntVal(0)
+        for c in parts:
+            offs.append(acc)
+            acc = z3.simplify(acc + z3.Length(c))
+        res = out
+        for c, off in reversed(list(zip(parts, offs))):
+            j = z3.simplify(i - off)
+            res = z3.If(z3.And(j >= 0, j < z3.Length(c)), nth_through(c, j, depth + 1), res)
+        return res
+    if k == z3.Z3_OP_SEQ_UNIT:
+        return z3.If(i == 0, t.arg(0), t[i])
+    if k == z3.Z3_OP_ITE:
+        return z3.If(t.arg(0), nth_through(t.arg(1), i, depth + 1), nth_through(t.arg(2), i, depth + 1))
+    if k == z3.Z3_OP_SEQ_EXTRACT:
+        s, lo, ln = t.arg(0), t.arg(1), t.arg(2)
+        j = z3.simplify(lo + i)
+        return z3.If(z3.And(i >= 0, i < ln, lo >= 0, j < z3.Length(s)), nth_through(s, j, depth + 1), t[i])
+    return t[i]
 
 
 def reverse_bytes(ex, o):
@@ -746,6 +781,8 @@ def store_subscript(ex, o, i, v):
 def del_subscript(ex, o, i):
     if isinstance(o, Ref):
         ho = ex.wobj(o)
+        if isinstance(ho, ExtObj):
+            return ho.ext_delitem(ex, o, i)
         if isinstance(ho, DObj):
             key = dict_find(ex, ho, wrap_key(i))
             if key is _MISSING:
@@ -773,6 +810,12 @@ def del_subscript(ex, o, i):
             if all(x is None or isinstance(x, int) for x in (lo, hi)):
                 del ho.items[lo:hi]
                 return
+        if isinstance(ho, LObj) and ho.sym is not None and isinstance(i, SliceV) and i.step is None:
+            # del lst[a:b] on a symbolic-length list (Python clamping of the bounds)
+            s = ho.sym.t
+            lo, ln = slice_bounds(ex, i, mk_int(z3.Length(s)))
+            ho.sym = Sym(z3.simplify(z3.Concat(z3.Extract(s, 0, lo), z3.Extract(s, lo + ln, z3.Length(s) - lo - ln))), ho.sym.k)
+            return
     raise Unsupported(f'del subscript on {o!r}')
 
 
@@ -966,6 +1009,10 @@ def equal(ex, a, b):
             a, b = b, a
         sb = list_as_sym(ex, b, a.k[1])
         return mk_bool(a.t == sb.t)
+    if isinstance(a, Ref) and isinstance(ex.obj(a), ExtObj):
+        return ex.obj(a).ext_equal(ex, a, b)
+    if isinstance(b, Ref) and isinstance(ex.obj(b), ExtObj):
+        return ex.obj(b).ext_equal(ex, b, a)
     if ka == 'obj' and kb == 'obj':
         if a.oid == b.oid and a.old == b.old:
             return True
@@ -1122,6 +1169,10 @@ def binop(ex, op, a, b):
         return OpaqueStr()
     if is_intlike(ex, a) and is_intlike(ex, b):
         return int_binop(ex, op, a, b)
+    if isinstance(a, Ref) and isinstance(ex.obj(a), ExtObj):
+        return ex.obj(a).ext_binop(ex, a, op, b, False)
+    if isinstance(b, Ref) and isinstance(ex.obj(b), ExtObj):
+        return ex.obj(b).ext_binop(ex, b, op, a, True)
     if isinstance(op, ast.Add):
         if is_byteslike(ex, a) and is_byteslike(ex, b):
             x, y = ex.as_bytes_value(a), ex.as_bytes_value(b)
